@@ -363,35 +363,64 @@ func c03Dequeue(a *Anchors, r *core.Report) {
 			return t, fl
 		}
 		for _, q := range order {
-			if len(pops[q]) != 1 {
-				probs = append(probs, fmt.Sprintf("%d Pop sites on queue %s (expected 1)", len(pops[q]), q))
+			if len(pops[q]) == 0 {
+				probs = append(probs, "queue "+q+" is never polled: its messages are never handled")
 			}
 		}
 		if len(probs) == 0 {
-			for i := 1; i < len(order); i++ {
-				hi, lo := pops[order[i-1]][0], pops[order[i]][0]
-				_, fail := okEdges(hi)
-				if len(fail) == 0 || !edgesDominate(fail, lo) {
-					probs = append(probs, fmt.Sprintf("Pop(%s) is not dominated by the empty edge of Pop(%s): a lower class can be served while a higher one has messages", order[i], order[i-1]))
-				}
+			rank := map[string]int{}
+			for i, q := range order {
+				rank[q] = i
 			}
-			top := pops[order[0]][0]
+			// (a) every Pop of a lower class is dominated by the empty edge of a Pop of each higher class
 			for _, q := range order {
-				succ, _ := okEdges(pops[q][0])
-				var starts []Point
-				for _, e := range succ {
-					starts = append(starts, Point{e.To(), 0})
-				}
-				hit := walkAvoid(starts, func(in ssa.Instruction) bool { return in == top }, func(in ssa.Instruction) bool {
-					for _, q2 := range order {
-						if in == pops[q2][0] && in != top {
-							return true
+				for _, lo := range pops[q] {
+					for j := 0; j < rank[q]; j++ {
+						ok := false
+						for _, hi := range pops[order[j]] {
+							_, fail := okEdges(hi)
+							if len(fail) > 0 && edgesDominate(fail, lo) {
+								ok = true
+							}
+						}
+						if !ok {
+							probs = append(probs, fmt.Sprintf("Pop(%s) at %s is not dominated by the empty edge of a Pop(%s): a lower class can be served while a higher one has messages", q, a.P.Pos(lo.Pos()), order[j]))
 						}
 					}
-					return false
-				})
-				if len(hit) > 0 {
-					probs = append(probs, fmt.Sprintf("after a message from %s another Pop (%s) is reachable without polling %s first: lower classes are drained while a higher class waits", q, a.P.Pos(hit[0].Pos()), order[0]))
+				}
+			}
+			// (b) after any successful Pop the next Pop reached on every path is one of the top class
+			isTop := func(in ssa.Instruction) bool {
+				for _, t := range pops[order[0]] {
+					if in == t {
+						return true
+					}
+				}
+				return false
+			}
+			for _, q := range order {
+				for _, site := range pops[q] {
+					succ, _ := okEdges(site)
+					var starts []Point
+					for _, e := range succ {
+						starts = append(starts, Point{e.To(), 0})
+					}
+					hit := walkAvoid(starts, isTop, func(in ssa.Instruction) bool {
+						if isTop(in) {
+							return false
+						}
+						for _, q2 := range order {
+							for _, s2 := range pops[q2] {
+								if in == s2 {
+									return true
+								}
+							}
+						}
+						return false
+					})
+					if len(hit) > 0 {
+						probs = append(probs, fmt.Sprintf("after a message from %s another Pop (%s) is reachable without polling %s first: lower classes are drained while a higher class waits", q, a.P.Pos(hit[0].Pos()), order[0]))
+					}
 				}
 			}
 		}
